@@ -287,8 +287,21 @@ func projectElemMatch(ctx Context, doc bsonkit.Doc, _, path string, v interface{
 		Expression: ExpressionQueryOperators,
 	}
 
+	// field conditions (as opposed to operator expressions) only apply to
+	// elements that are embedded documents or arrays
+	fieldForm := len(query) > 0 && (len(query[0].Key) == 0 || query[0].Key[0] != '$')
+
 	// find first matching element
 	for _, item := range array {
+		// skip scalar elements for field conditions
+		if fieldForm {
+			switch item.(type) {
+			case bson.D, bson.A:
+			default:
+				continue
+			}
+		}
+
 		virtual := bson.D{
 			bson.E{Key: "item", Value: item},
 		}
